@@ -164,7 +164,7 @@ PROPS = {
         level_text='Decides the clause "equality is an equivalence relation with which the ordering is consistent" structurally.',
     ),
     'C18': dict(
-        rules=[r_tables.s18_source_tables, r_tables.s18b_clv_zero_range, r_tables.s06_ma_dispatch,
+        rules=[r_tables.s18_source_tables, r_tables.s18b_clv_zero_range, r_tables.s06_ma_dispatch, r_conv.s19b_same_name_wiring,
                lambda ctx: r_absint.a01_constructors(ctx, groups=('parser',), rule_id='A01p', min_entries=4,
                    title='Source::from_str, MA::from_str and the TryFrom conversions reach no panic for any text')],
         feature_sets=_sets(['default']),
@@ -274,7 +274,8 @@ PROPS = {
     ),
     'C04': dict(
         rules=[lambda ctx: r_mirror.s04_mirror_siblings(ctx, which=('highest_lowest::Highest', 'highest_lowest_index::HighestIndex')),
-               r_mirror.s05_mixed_float_equivalence],
+               r_mirror.s05_mixed_float_equivalence,
+               lambda ctx: r_step.s07_step_once(ctx, only_types=('Highest', 'Lowest', 'HighestLowestDelta', 'HighestIndex', 'LowestIndex', 'SMM', 'MedianAbsDev'), rule_id='S07s')],
         feature_sets=_sets(['default']),
         explanation=('(S04) Lowest / LowestIndex are the HIR mirror image of Highest / HighestIndex (new, next, peek) under the swap >=/<=, '
                      '>/< on float operands and max/min: the min-side behaviour is the mirrored max-side behaviour, ties included. (S05) every '
